@@ -168,6 +168,12 @@ func ExtractSchema(p *packages.Package) (*Schema, error) {
 		if !ok {
 			continue
 		}
+		if b, ok := tn.Type().Underlying().(*types.Basic); ok && b.Kind() == types.Int32 {
+			if obj, _, _ := types.LookupFieldOrMethod(tn.Type(), false, p.Types, "EnumDescriptor"); obj != nil {
+				s.Enums = append(s.Enums, n)
+			}
+			continue
+		}
 		st, ok := tn.Type().Underlying().(*types.Struct)
 		if !ok || !isMsg(n) || strings.HasPrefix(n, "fastReflection_") {
 			continue
